@@ -60,13 +60,156 @@ proof fn lemma_fn_consts()
 }
 // Montgomery decoding mod n
 pub open spec fn fne(a: Seq<u64>) -> int { (val4(a) * RINV_N()) % N() }
+//@section spec
+use vstd::arithmetic::div_mod::*;
+// ---- small modular-arithmetic library (generic modulus m, no big constants) ----
+pub proof fn fnl_small_mod(x: int, m: int) requires 0 <= x < m ensures x % m == x
+{ lemma_small_mod(x as nat, m as nat); }
+// (a + k*m) % m == a % m
+pub proof fn fnl_mod_add_mult(a: int, k: int, m: int) requires m > 0 ensures (a + k * m) % m == a % m
+{
+    lemma_mod_multiples_vanish(k, a, m);
+    assert(m * k + a == a + k * m) by(nonlinear_arith);
+}
+// congruence is preserved by multiplication
+pub proof fn fnl_mod_mul_cong(a: int, b: int, c: int, m: int) requires m > 0, a % m == b % m ensures (a * c) % m == (b * c) % m
+{
+    lemma_mul_mod_noop_general(a, c, m);
+    lemma_mul_mod_noop_general(b, c, m);
+}
+// Montgomery reduction core: z + ((z_lo * n') mod R) * n is divisible by R
+pub proof fn fnl_mont_div(z: int, zl: int, tl: int, pp: int, pv: int, r: int)
+    requires r > 0, zl == z % r, 0 <= z, tl == (zl * pp) % r, (pv * pp + 1) % r == 0,
+    ensures (z + tl * pv) % r == 0
+{
+    let k1 = z / r;
+    let k2 = (zl * pp) / r;
+    let k3 = (pv * pp + 1) / r;
+    lemma_fundamental_div_mod(z, r);
+    lemma_fundamental_div_mod(zl * pp, r);
+    lemma_fundamental_div_mod(pv * pp + 1, r);
+    assert(z == k1 * r + zl) by(nonlinear_arith) requires z == r * k1 + zl;
+    assert(zl * pp == k2 * r + tl) by(nonlinear_arith) requires zl * pp == r * k2 + tl;
+    assert(pv * pp + 1 == k3 * r) by(nonlinear_arith) requires pv * pp + 1 == r * k3 + 0;
+    assert(z + tl * pv == (k1 - k2 * pv + zl * k3) * r) by(nonlinear_arith)
+        requires z == k1 * r + zl, zl * pp == k2 * r + tl, pv * pp + 1 == k3 * r;
+    lemma_mod_multiples_basic(k1 - k2 * pv + zl * k3, r);
+}
+// the quotient (a*b + tl*n)/r is below 2n
+pub proof fn fnl_mont_bound(a: int, b: int, tl: int, n: int, r: int, q: int)
+    requires 0 <= a < n, 0 <= b < n, 0 <= tl < r, 0 < n < r, a * b + tl * n == r * q
+    ensures 0 <= q < 2 * n
+{
+    assert(0 <= a * b) by(nonlinear_arith) requires 0 <= a, 0 <= b;
+    assert(a * b < n * n) by(nonlinear_arith) requires 0 <= a < n, 0 <= b < n;
+    assert(n * n < r * n) by(nonlinear_arith) requires 0 < n < r;
+    assert(0 <= tl * n && tl * n < r * n) by(nonlinear_arith) requires 0 <= tl < r, 0 < n;
+    assert(r * q < r * (2 * n)) by(nonlinear_arith) requires r * q < r * n + r * n;
+    assert(q < 2 * n) by(nonlinear_arith) requires r * q < r * (2 * n), r > 0;
+    assert(q >= 0) by(nonlinear_arith) requires r * q >= 0, r > 0;
+}
+// after the conditional subtraction: res * R == a*b (mod n)
+pub proof fn fnl_mont_congr(ab: int, tl: int, q: int, e: int, res: int, n: int, r: int)
+    requires n > 0, ab + tl * n == r * q, res == q - e * n
+    ensures (res * r) % n == ab % n
+{
+    assert(res * r == ab + (tl - e * r) * n) by(nonlinear_arith) requires ab + tl * n == r * q, res == q - e * n;
+    fnl_mod_add_mult(ab, tl - e * r, n);
+}
+// decoding: C*R == A*B (mod n), R*I == 1 (mod n)  ==>  C*I == (A*I)*(B*I) (mod n)
+pub proof fn fnl_mont_decode(a: int, b: int, c: int, r: int, i: int, n: int)
+    requires n > 0, (c * r) % n == (a * b) % n, (r * i) % n == 1
+    ensures (c * i) % n == (((a * i) % n) * ((b * i) % n)) % n
+{
+    lemma_mul_mod_noop(a * i, b * i, n);
+    assert((a * i) * (b * i) == (a * b) * (i * i)) by(nonlinear_arith);
+    fnl_mod_mul_cong(a * b, c * r, i * i, n);
+    assert((c * r) * (i * i) == (c * i) * (r * i)) by(nonlinear_arith);
+    lemma_mul_mod_noop_general(c * i, r * i, n);
+    assert((c * i) * 1 == c * i);
+}
+// c == c * (R*I) (mod n)
+pub proof fn fnl_cancel(c: int, r: int, i: int, n: int)
+    requires n > 0, (r * i) % n == 1
+    ensures (c * (r * i)) % n == c % n, ((c * r) * i) % n == c % n, ((c * i) * r) % n == c % n
+{
+    lemma_mul_mod_noop_general(c, r * i, n);
+    assert(c * 1 == c);
+    assert((c * r) * i == c * (r * i)) by(nonlinear_arith);
+    assert((c * i) * r == c * (r * i)) by(nonlinear_arith);
+}
+// encoding: (a*I) * ((R*R mod n)*I) == a (mod n)
+pub proof fn fnl_to_mont(a: int, r: int, i: int, n: int)
+    requires n > 0, 0 <= a < n, (r * i) % n == 1
+    ensures ((((r * r) % n) * i) % n) == r % n, (((a * i) % n) * ((((r * r) % n) * i) % n)) % n == a
+{
+    lemma_mul_mod_noop_general(r * r, i, n);
+    fnl_cancel(r, r, i, n);
+    lemma_mul_mod_noop(a * i, r, n);
+    fnl_cancel(a, r, i, n);
+    fnl_small_mod(a, n);
+}
+// ---- powers ----
+pub proof fn fnl_pow_range(x: int, e: nat, m: int) requires m > 0 ensures 0 <= pow_mod(x, e, m) < m decreases e
+{
+    if e == 0 { lemma_mod_bound(1, m); } else { lemma_mod_bound(pow_mod(x, (e - 1) as nat, m) * x, m); }
+}
+pub proof fn fnl_pow_add(x: int, i: nat, j: nat, m: int) requires m > 0
+    ensures pow_mod(x, i + j, m) == (pow_mod(x, i, m) * pow_mod(x, j, m)) % m
+    decreases j
+{
+    let pi = pow_mod(x, i, m);
+    fnl_pow_range(x, i, m);
+    if j == 0 {
+        lemma_mul_mod_noop_general(pi, 1, m);
+        assert(pi * 1 == pi);
+        fnl_small_mod(pi, m);
+    } else {
+        let pj = pow_mod(x, (j - 1) as nat, m);
+        fnl_pow_add(x, i, (j - 1) as nat, m);
+        assert(((i + j) - 1) as nat == i + (j - 1) as nat);
+        // pow(i+j) == (((pi*pj)%m)*x)%m == (pi*pj*x)%m == (pi*((pj*x)%m))%m
+        lemma_mul_mod_noop_general(pi * pj, x, m);
+        assert((pi * pj) * x == pi * (pj * x)) by(nonlinear_arith);
+        lemma_mul_mod_noop_general(pi, pj * x, m);
+    }
+}
+pub open spec fn fnl_p2(j: nat) -> int decreases j { if j == 0 { 1 } else { 2 * fnl_p2((j - 1) as nat) } }
+pub proof fn fnl_p2_64() ensures fnl_p2(64) == 0x1_0000_0000_0000_0000int { assert(fnl_p2(64) == 0x1_0000_0000_0000_0000int) by(compute); }
+// value of the k most significant limbs
+pub open spec fn fnl_top(e: Seq<u64>, k: int) -> int decreases k { if k <= 0 { 0 } else { fnl_top(e, k - 1) * 0x1_0000_0000_0000_0000int + e[4 - k] as int } }
+pub proof fn fnl_top4(e: Seq<u64>) ensures fnl_top(e, 4) == val4(e), fnl_top(e, 0) == 0
+{
+    assert(fnl_top(e, 0) == 0);
+    assert(fnl_top(e, 1) == fnl_top(e, 0) * 0x1_0000_0000_0000_0000int + e[3] as int);
+    assert(fnl_top(e, 2) == fnl_top(e, 1) * 0x1_0000_0000_0000_0000int + e[2] as int);
+    assert(fnl_top(e, 3) == fnl_top(e, 2) * 0x1_0000_0000_0000_0000int + e[1] as int);
+    assert(fnl_top(e, 4) == fnl_top(e, 3) * 0x1_0000_0000_0000_0000int + e[0] as int);
+}
+pub proof fn fnl_bits(w: u64)
+    ensures (w & 0x8000000000000000 != 0) == (w >= 0x8000000000000000u64),
+        w < 0x8000000000000000u64 ==> (w << 1) as int == 2 * (w as int),
+        w >= 0x8000000000000000u64 ==> (w << 1) as int == 2 * (w as int) - 0x1_0000_0000_0000_0000int,
+{
+    assert((w & 0x8000000000000000 != 0) == (w >= 0x8000000000000000u64)) by(bit_vector);
+    assert(w < 0x8000000000000000u64 ==> (w << 1) == 2 * w) by(bit_vector);
+    assert(w >= 0x8000000000000000u64 ==> (w << 1) == 2 * (w - 0x8000000000000000u64)) by(bit_vector);
+}
 //@section code gm-sm2/src/fields/fn64.rs
-#[verifier::external_body]
 fn fn_add(a: &U256, b: &U256) -> (r: U256)
     requires val4(a@) + val4(b@) < r256() + N()
     ensures val4(r@) % N() == (val4(a@) + val4(b@)) % N(),
         val4(a@) + val4(b@) < 2 * N() ==> val4(r@) == (val4(a@) + val4(b@)) % N(),
 {
+    proof {
+        lemma_fn_consts(); lemma_params();
+        lemma_val4_bounds(a@); lemma_val4_bounds(b@);
+        assert forall|s: Seq<u64>| s.len() == 4 implies 0 <= #[trigger] val4(s) < r256() by { lemma_val4_bounds(s); }
+        let s = val4(a@) + val4(b@);
+        fnl_mod_add_mult(s, -1, N());
+        if 0 <= s - N() < N() { fnl_small_mod(s - N(), N()); }
+        if s < N() { fnl_small_mod(s, N()); }
+    }
     let (r, c) = u256_add(a, b);
     if c {
         // a + b - n = (a + b - 2^256) + (2^256 - n)
@@ -78,35 +221,51 @@ fn fn_add(a: &U256, b: &U256) -> (r: U256)
     r
 }
 
-#[verifier::external_body]
 fn fn_sub(a: &U256, b: &U256) -> (r: U256)
     requires val4(a@) < N(), val4(b@) < N()
     ensures val4(r@) == (val4(a@) - val4(b@)) % N(),
 {
+    proof {
+        lemma_fn_consts(); lemma_params();
+        lemma_val4_bounds(a@); lemma_val4_bounds(b@);
+        let d = val4(a@) - val4(b@);
+        fnl_mod_add_mult(d, 1, N());
+        if d >= 0 { fnl_small_mod(d, N()); } else { fnl_small_mod(d + N(), N()); }
+    }
     let (mut r, c) = u256_sub(a, b);
+    proof { lemma_val4_bounds(r@); }
     if c {
         r = u256_sub(&r, &SM2_N_NEG).0
     }
+    proof { lemma_val4_bounds(r@); }
     r
 }
 
-#[verifier::external_body]
 fn fn_to_mont(a: &U256) -> (r: U256)
     requires val4(a@) < N()
     ensures val4(r@) < N(), fne(r@) == val4(a@),
 {
+    proof {
+        lemma_fn_consts(); lemma_params();
+        lemma_val4_bounds(a@);
+        lemma_mod_bound(r256() * r256(), N());
+        fnl_to_mont(val4(a@), r256(), RINV_N(), N());
+    }
     mont_mul(a, &SM2_MOD_N_2E512)
 }
 
-#[verifier::external_body]
 fn fn_from_mont(a: &U256) -> (r: U256)
     requires val4(a@) < N()
     ensures val4(r@) == fne(a@),
 {
+    proof {
+        lemma_fn_consts(); lemma_params();
+        assert(val4(SM2_ONE@) == 1) by(compute);
+        assert(val4(a@) * 1 == val4(a@));
+    }
     mont_mul(a, &SM2_ONE)
 }
 
-#[verifier::external_body]
 fn fn_mul(a: &U256, b: &U256) -> (r: U256)
     requires val4(a@) < N(), val4(b@) < N()
     ensures val4(r@) == (val4(a@) * val4(b@)) % N(),
@@ -118,10 +277,10 @@ fn fn_mul(a: &U256, b: &U256) -> (r: U256)
     r
 }
 
-#[verifier::external_body]
 fn mont_mul(a: &U256, b: &U256) -> (res: U256)
     requires val4(a@) < N(), val4(b@) < N()
     ensures val4(res@) < N(), (val4(res@) * r256()) % N() == (val4(a@) * val4(b@)) % N(), fne(res@) == (fne(a@) * fne(b@)) % N(),
+        val4(res@) == (val4(a@) * val4(b@) * RINV_N()) % N(),
 {
     let mut r = [0u64; 4];
     let mut z = [0u64; 8];
@@ -129,6 +288,7 @@ fn mont_mul(a: &U256, b: &U256) -> (res: U256)
 
     // z = a * b
     z = u256_mul(a, b);
+    let ghost z0 = z@;
 
     // t = low(z) * n'
     let z_low = [z[0], z[1], z[2], z[3]];
@@ -141,6 +301,7 @@ fn mont_mul(a: &U256, b: &U256) -> (res: U256)
     // t = low(t) * n
     let t_low = [t[0], t[1], t[2], t[3]];
     t = u256_mul(&t_low, &SM2_N);
+    let ghost t2 = t@;
 
     // z = z + t
     let (sum, c) = u512_add(&z, &t);
@@ -148,15 +309,62 @@ fn mont_mul(a: &U256, b: &U256) -> (res: U256)
 
     // r = high(r)
     r = [z[4], z[5], z[6], z[7]];
+    let ghost r0 = r@;
+    let ghost av = val4(a@);
+    let ghost bv = val4(b@);
+    let ghost tl = val4(t1@.subrange(0, 4));
+    let ghost q: int = val4(r0) + (if c { r256() } else { 0 });
+    proof {
+        lemma_fn_consts(); lemma_params();
+        lemma_val4_bounds(a@); lemma_val4_bounds(b@);
+        assert(z_low@ =~= z0.subrange(0, 4));
+        assert(t_low@ =~= t1@.subrange(0, 4));
+        assert(r0 =~= sum@.subrange(4, 8));
+        lemma_val4_bounds(z0.subrange(0, 4)); lemma_val4_bounds(z0.subrange(4, 8));
+        lemma_val4_bounds(t1@.subrange(0, 4)); lemma_val4_bounds(t1@.subrange(4, 8));
+        lemma_val4_bounds(sum@.subrange(0, 4)); lemma_val4_bounds(sum@.subrange(4, 8));
+        let rr = r256();
+        let np = val4(SM2_N_PRIME@);
+        let zz = val8(z0); let zl = val4(z0.subrange(0, 4)); let zh = val4(z0.subrange(4, 8));
+        let t1h = val4(t1@.subrange(4, 8));
+        let sl = val4(sum@.subrange(0, 4));
+        assert(zz == av * bv);
+        assert(zz >= 0) by(nonlinear_arith) requires zz == av * bv, av >= 0, bv >= 0;
+        assert(zz == zh * rr + zl) by(nonlinear_arith) requires zz == zl + rr * zh;
+        lemma_fundamental_div_mod_converse(zz, rr, zh, zl);
+        assert(val8(t1@) == zl * np);
+        assert(zl * np == t1h * rr + tl) by(nonlinear_arith) requires zl * np == tl + rr * t1h;
+        lemma_fundamental_div_mod_converse(zl * np, rr, t1h, tl);
+        fnl_mont_div(zz, zl, tl, np, N(), rr);
+        let big = zz + tl * N();
+        assert(val8(t2) == tl * N());
+        let sh = val4(r0);
+        assert(sl + rr * sh + (if c { rr * rr } else { 0 }) == big);
+        assert(big == q * rr + sl && big == rr * q + sl) by(nonlinear_arith)
+            requires sl + rr * sh + (if c { rr * rr } else { 0 }) == big, q == sh + (if c { rr } else { 0 });
+        lemma_fundamental_div_mod_converse(big, rr, q, sl);
+        assert(sl == 0);
+        assert(av * bv + tl * N() == rr * q);
+        fnl_mont_bound(av, bv, tl, N(), rr, q);
+    }
     if c {
         r = u256_add(&r, &SM2_N_NEG).0;
     } else if u256_cmp(&r, &SM2_N) >= 0 {
         r = u256_sub(&r, &SM2_N).0
     }
+    proof {
+        lemma_val4_bounds(r@);
+        let e: int = if c || val4(r0) >= N() { 1 } else { 0 };
+        assert(val4(r@) == q - e * N());
+        fnl_mont_congr(av * bv, tl, q, e, val4(r@), N(), r256());
+        fnl_mont_decode(av, bv, val4(r@), r256(), RINV_N(), N());
+        fnl_cancel(val4(r@), r256(), RINV_N(), N());
+        fnl_mod_mul_cong(val4(r@) * r256(), av * bv, RINV_N(), N());
+        fnl_small_mod(val4(r@), N());
+    }
     r
 }
 
-#[verifier::external_body]
 fn fn_pow(a: &U256, e: &U256) -> (r: U256)
     requires val4(a@) < N()
     ensures val4(r@) == pow_mod(val4(a@), val4(e@) as nat, N()),
@@ -164,16 +372,63 @@ fn fn_pow(a: &U256, e: &U256) -> (r: U256)
     let mont_a = fn_to_mont(a);
     let mut r = SM2_N_NEG;
     let mut w = 0u64;
-    for i in (0..4).rev() {
+    let ghost av = val4(a@);
+    let ghost mut acc: int = 0;
+    proof {
+        lemma_fn_consts(); lemma_params();
+        // Montgomery one: ((R - n) * I) % n == (R*I) % n == 1
+        fnl_mod_add_mult(r256() * RINV_N(), -RINV_N(), N());
+        assert((r256() - N()) * RINV_N() == r256() * RINV_N() + (-RINV_N()) * N()) by(nonlinear_arith);
+        fnl_small_mod(1, N());
+        fnl_top4(e@);
+    }
+    for i in it: (0..4).rev()
+        invariant
+            val4(r@) < N(), val4(mont_a@) < N(), fne(mont_a@) == av,
+            acc >= 0, acc == fnl_top(e@, it.index@ as int),
+            fne(r@) == pow_mod(av, acc as nat, N()),
+    {
         w = e[i];
-        for _j in 0..64 {
+        let ghost x = acc * 0x1_0000_0000_0000_0000int + w as int;
+        let ghost mut m: int = 1;
+        for _j in 0..64
+            invariant
+                val4(r@) < N(), val4(mont_a@) < N(), fne(mont_a@) == av,
+                acc >= 0, m == fnl_p2(_j as nat),
+                acc * 0x1_0000_0000_0000_0000int + w as int == x * m,
+                fne(r@) == pow_mod(av, acc as nat, N()),
+        {
+            let ghost w0 = w;
             r = mont_mul(&r, &r);
+            proof {
+                lemma_params();
+                fnl_pow_add(av, acc as nat, acc as nat, N());
+                fnl_bits(w0);
+                assert((2 * acc) as nat == (acc as nat) + (acc as nat));
+            }
             if w & 0x8000000000000000 != 0 {
                 r = mont_mul(&r, &mont_a);
+                proof {
+                    assert(((2 * acc + 1) as nat - 1) as nat == (2 * acc) as nat);
+                    assert(pow_mod(av, (2 * acc + 1) as nat, N()) == (pow_mod(av, (2 * acc) as nat, N()) * av) % N());
+                }
             }
             w <<= 1;
+            proof {
+                let bit: int = if w0 >= 0x8000000000000000u64 { 1 } else { 0 };
+                assert(x * (2 * m) == 2 * (x * m)) by(nonlinear_arith);
+                acc = 2 * acc + bit;
+                m = 2 * m;
+            }
+        }
+        proof {
+            fnl_p2_64();
+            assert(x * m == x * 0x1_0000_0000_0000_0000int);
+            assert(acc == x);
+            assert(fnl_top(e@, it.index@ as int + 1) == fnl_top(e@, it.index@ as int) * 0x1_0000_0000_0000_0000int + e@[4 - (it.index@ as int + 1)] as int);
         }
     }
+    proof { fnl_top4(e@); }
     r = fn_from_mont(&r);
     r
 }
